@@ -10,27 +10,32 @@ from eqsig.fns import peaks_and_crossings as pk
 from pbt import core, gen
 from pbt.core import clause
 from pbt.ref import peaks as ref
+from pbt.ref import peaks_fast as pf
 
 PROPERTY = "C13"
 CLAUSES = []
 ASSUMPTIONS = [
     "series are non-constant, finite, n 3..3000, float64 / int64 / int32 / int16 ndarrays or lists (narrow integer dtypes use their full "
-    "range: the difference of two samples need not fit into the dtype; integer values are exactly representable in float64, |x| < 2^53 - "
-    "the library rebases integer series in floating point); non-zero samples and differences are >= 1e-30 "
+    "range: the difference of two samples need not fit into the dtype; an int64 series may sit on any offset, also beyond 2^53 - its differences are "
+    "exactly representable and integer series are rebased exactly; unsigned uint8 / uint16 counts over the full range); non-zero samples and differences are >= 1e-30 "
     "in magnitude (the library multiplies successive differences; products below 1e-308 underflow - an implicit precondition no "
     "ground motion violates, as in C11/C12)",
     "total-variation identities are asserted with equality on integer and dyadic data (all sums exact) and to 4*eps*n*TV otherwise",
     "power-law reference is built from the reference switched peaks of pbt/ref/peaks.py (C12's statement): N = sum over peaks at or "
-    "before i of 0.5*(|p|/a_ref)^(1/b), A = (sum 0.5*|p|^(1/b)/N_cyc)^b; peaks below cut_off*max|x| are counted as 0 cycles - the "
-    "library counts them as 0.5*(1e-14/a_ref)^(1/b), which is added to the tolerance",
-    "when an excursion attains its largest |value| more than once the statement does not say which index is reported: the series are "
-    "then compared at the end of the record only (plus length and monotonicity)",
-    "power-law clause with cut_off > 0: series are rescaled (by a power of two) to max|x| >= 1e-3: the library represents a "
-    "below-cut-off peak by the absolute amplitude 1e-14, which only means 'negligible' for records whose amplitudes dwarf it; "
-    "with cut_off = 0 nothing is replaced and the series is additionally put into small / large units (x 2^-50 .. 2^40)",
+    "before i of 0.5*(|p|/a_ref)^(1/b), A = (sum 0.5*|p|^(1/b)/N_cyc)^b; peaks below cut_off*max|x| count exactly 0 cycles in any unit "
+    "(fix f083e4b; the former 1e-14 placeholder tolerance and the rescaling of cut_off > 0 records to max|x| >= 1e-3 are gone: they hid a "
+    "genuine violation of 'cycles are invariant when record and a_ref scale together'); the meaning of cut_off is not in the statement: it "
+    "is read from the quantifier ('cut_off in [0, 0.1]'), the docstring ('Low amplitude cutoff value', default 0.01) and callers: peaks "
+    "lower than cut_off * max|x| are ignored",
+    "when an excursion attains its largest |value| more than once the statement does not say which index is reported: the cumulative "
+    "series are not compared from the first to just before the last of those samples (everywhere else they are)",
+    "power-law clause: records are put into small / large units (x 2^-50 .. 2^40, exact) with and without cut_off as long as "
+    "max|x|^(1/b) stays within 1e+-200; entries whose running sum is below 1e-280 (subnormal range) are not compared; a peak within 1e-9 "
+    "(relative) of cut_off*max|x| makes the cycle series ambiguous (not compared); A(N(a_ref)) is asserted two-sided as "
+    "a_ref*(S_all/S_kept)^b, S = sum|p|^(1/b) over all / the kept peaks (derived from the two definitions; == a_ref when nothing is dropped)",
     "b in (0.05, 1], cut_off in [0, 0.1], a_ref and the peak amplitudes within a factor 1e3 of each other so that ratios^(1/b) stay finite",
     "mid-range clauses: records are noise / band-limited noise / modulated sines x a slow envelope + 0.11 (amplitudes O(1), units 2^-7 .. 2^5 or "
-    "integer counts up to 2^40), b in [0.06, 1] (scalars) / [0.08, 1] (arrays), a_ref in [0.05, 20] x max|x|, n_cyc in [0.5, 50]: all powers stay "
+    "integer counts up to 2^40), b in (0.05, 1] (scalars and arrays), units 2^-33 .. 2^30 only with b >= 0.15, a_ref in [0.05, 20] x max|x|, n_cyc in [0.5, 50]: all powers stay "
     "within 1e-200 .. 1e210; the exponent is a python / numpy scalar or an ndarray (a python LIST of exponents is not in the domain: the "
     "quantifier says 'scalar and array b' and the pinned functions raise TypeError on 1. / list); the power-law functions get ndarrays "
     "(float64, int64, int32 / int16 over the full range of the dtype, read-only, strided, negative stride) and python lists of floats; the combined amplitude takes a "
@@ -41,11 +46,14 @@ ASSUMPTIONS = [
     "sign(movement into the peak) * (x[peak] - x[0]); tolerance 0 on exact data, 4*eps*max|x| per entry otherwise (rebasing x - x[0] and "
     "one difference), 4*eps*max|x|*n_peaks for the sums",
     "mid-range power-law tolerance: element-wise RELATIVE (1e-10 + 2*eps*n_peaks) of the reference value itself (sequential float64 "
-    "summation of n_peaks positive terms) + the 1e-14-placeholder slack; (n x len(b)) outputs are compared in full against float64 powers / "
+    "summation of n_peaks positive terms); (n x len(b)) outputs are compared in full against float64 powers / "
     "long-double sums of the reference peaks (+ 8 eps), a handful of columns against the all-long-double reference; the scaling laws "
-    "A(alpha x), N(alpha x, alpha a_ref) are not re-run at mid-range sizes (they follow from the reference comparison, which is run in "
-    "several units)",
-    "cutoff-tie: a peak exactly AT cut_off*max|x| counts (the statement ignores peaks BELOW the cut-off); asserted only when the product "
+    "A(alpha x), N(alpha x, alpha a_ref) are re-run at mid-range sizes for float64 records up to 40000 samples and all smooth ones "
+    "(skipped when rounding alpha*x moves a reported peak)",
+    "cutoff-tie: a peak exactly AT cut_off*max|x| counts.  This is NOT in the statement (which does not define the cut-off); it rests on the "
+    "docstring 'LOW amplitude cutoff' (amplitudes lower than the cut-off are cut; one equal to it is not lower) and on the quantifier naming "
+    "cut_off as a threshold relative to max|x|; kept on the coordinator's decision because an inclusive comparison silently drops the cycles "
+    "of a record whose small cycles sit exactly at cut_off*max (quantised records: counts 1 and 16 with cut_off 1/16); asserted only when the product "
     "cut_off*max|x| is exact in binary (dyadic cut_off = p/2^k <= 0.1 and dyadic amplitudes); with cut_off = 0.1 and amplitudes 10 / 1 the "
     "double-precision product equals 1.0 bit for bit but the real product of the stored 0.1000000000000000055 does not: ambiguous, bracket-checked; "
     "b >= 0.25 so that the contribution of the peak at the cut-off stays above the 1e-10 tolerance",
@@ -63,11 +71,11 @@ def _tidy(a):
 
 @st.composite
 def _series(draw, max_n=3000, start_zero=None):
-    spec = draw(gen.record_specs(min_n=3, max_n=max_n, allow_zero_runs=True, allow_int=True, amp_lo=-3, amp_hi=3))
+    spec = draw(gen.record_specs(min_n=2, max_n=max_n, allow_zero_runs=True, allow_int=True, amp_lo=-3, amp_hi=3))
     if draw(st.integers(0, 5)) == 0:
         # narrow integer containers (raw counts of a 16 / 32 bit digitiser): the values are scaled to the full range of the
         # dtype, so that the difference of two samples does not fit into the dtype
-        spec["as"] = draw(st.sampled_from(["int16", "int16", "int32"]))
+        spec["as"] = draw(st.sampled_from(["int16", "int16", "int32", "uint8", "uint16", "uint16"]))
     case = {"rec": spec, "start0": draw(st.booleans()) if start_zero is None else start_zero,
             "offset": draw(st.sampled_from([0.0, 0.0, 1.0, -2.5, 1024.0, -0.375]))}
     if not case["start0"] and draw(st.integers(0, 3)) == 0:
@@ -88,13 +96,17 @@ def _build(case):
     if how == "int":
         a = np.round(a * (8 if np.max(np.abs(a)) < 1e6 else 1))
     elif how in NARROW:
-        top = float(np.max(np.abs(a)))
-        a = np.round(a / top * NARROW[how][1]) if top > 0 else np.round(a)
+        if how.startswith("u"):
+            lo, hi = float(np.min(a)), float(np.max(a))
+            a = np.round((a - lo) / (hi - lo) * NARROW[how][1]) if hi > lo else np.zeros_like(a)
+        else:
+            top = float(np.max(np.abs(a)))
+            a = np.round(a / top * NARROW[how][1]) if top > 0 else np.round(a)
     return a, how
 
 
 # narrow integer dtypes: (dtype, full-scale count used by the generator; full scale + the constant shifts stay inside the dtype)
-NARROW = {"int16": (np.int16, 30000.0), "int32": (np.int32, 2.1e9)}
+NARROW = {"int16": (np.int16, 30000.0, 2000), "int32": (np.int32, 2.1e9, 2000), "uint8": (np.uint8, 250.0, 5), "uint16": (np.uint16, 65000.0, 500)}
 
 
 def _as(a, how):
@@ -104,11 +116,61 @@ def _as(a, how):
         return np.array(a, dtype=NARROW[how][0])
     if how == "list":
         return [float(v) for v in a]
+    if how in ("view", "negstride", "readonly"):
+        return gen.as_container({"as": how}, np.array(a, dtype=float))
     return np.array(a, dtype=float)
 
 
 def _exact_data(case, a):
-    return case["rec"]["k"] == "dyadic" or case["rec"].get("as") in ("int", "int16", "int32") or bool(np.all(a == np.round(a)) and np.max(np.abs(a)) < 2 ** 40)
+    return case["rec"]["k"] == "dyadic" or (case["rec"].get("as") == "int" or case["rec"].get("as") in NARROW) or bool(np.all(a == np.round(a)) and np.max(np.abs(a)) < 2 ** 40)
+
+
+
+def _per_peak(ctx, a, lp, d, cs, tol_el):
+    """Values of the two peak-only series at every reported peak.  The statement applied to every prefix of the record that ends
+    at a reported peak (the record up to a turning point is itself a series of the quantifier, and the docstrings say 'changes
+    between peak values' / 'peak values with alternating sign'): |delta| at a reported peak is the variation since the previous
+    one, with ONE sign convention for the whole record (either is accepted); the pseudo-cyclic entry is
+    sign(movement into the peak) * (x[peak] - x[0])."""
+    if len(lp) < 2:
+        return
+    al = a.astype(LD)
+    pvals = al[lp]
+    moves = np.diff(pvals)
+    dl = np.asarray(d).astype(LD)
+    cl_ = np.asarray(cs).astype(LD)
+    dp = dl[lp[1:]]
+    e_pos = np.abs(dp - moves)
+    e_neg = np.abs(dp + moves)
+    if not (np.all(e_pos <= tol_el) or np.all(e_neg <= tol_el)):
+        w_ = e_pos if np.sum(e_pos <= tol_el) >= np.sum(e_neg <= tol_el) else e_neg
+        j = int(np.flatnonzero(~(w_ <= tol_el))[0])
+        ctx.fail("delta series at reported peak %d (index %d of %d): %r, but the series moved by %r since the previous reported peak (index %d); %d of %d peaks differ" % (
+            j + 1, int(lp[j + 1]), len(a), float(dp[j]), float(moves[j]), int(lp[j]), int(np.sum(~(w_ <= tol_el))), len(dp)))
+    ctx.check(abs(float(dl[lp[0]])) <= tol_el, "delta series at the first sample is %r" % float(dl[lp[0]]))
+    want_c = np.sign(moves) * (pvals[1:] - al[0])
+    e_c = np.abs(cl_[lp[1:]] - want_c)
+    if not np.all(e_c <= tol_el):
+        j = int(np.flatnonzero(~(e_c <= tol_el))[0])
+        ctx.fail("pseudo-cyclic series at reported peak %d (index %d of %d): %r, expected sign(movement)*(x - x[0]) = %r; %d of %d peaks differ" % (
+            j + 1, int(lp[j + 1]), len(a), float(cl_[lp[j + 1]]), float(want_c[j]), int(np.sum(~(e_c <= tol_el))), len(e_c)))
+    ctx.check(abs(float(cl_[lp[0]])) <= tol_el, "pseudo-cyclic series at the first sample is %r" % float(cl_[lp[0]]))
+
+
+def _real_shift(ctx, a, lp, d, cs, shift):
+    """Sentence 5 on real data: the two series of x + c agree with those of x to the rounding of x + c and of its rebasing:
+    every entry is a difference of (at most) two rebased samples, each within eps*(max|x| + |c|) -> 8 eps (max|x| + |c|)."""
+    a2 = a + shift
+    lp2 = pf.local_peak_indices(a2)
+    if not (np.array_equal(lp2, lp) and np.array_equal(pf.local_peak_indices(a2 - a2[0]), lp)):
+        ctx.cls("shift-moves-a-turning-point")      # a step smaller than the rounding of x + c: positions ambiguous
+        return
+    tol = 8 * EPS * (float(np.max(np.abs(a))) + abs(shift))
+    d2 = np.asarray(ctx.lib(pk.determine_peaks_only_delta_series, a2.copy()))
+    c2 = np.asarray(ctx.lib(pk.determine_pseudo_cyclic_peak_only_series, a2.copy()))
+    ctx.close(d2, np.asarray(d, dtype=float), tol, "delta series after a constant (real) shift of %r" % shift)
+    ctx.close(c2, np.asarray(cs, dtype=float), tol, "pseudo-cyclic series after a constant (real) shift of %r" % shift)
+    ctx.cls("shifted-real")
 
 
 @clause(CLAUSES, "total-variation", _series(), quick=700, thorough=3000,
@@ -132,11 +194,11 @@ def total_variation(case, ctx):
     ctx.cls(gen.size_class(n), "as=" + (how or "ndarray"), "exact" if exact else "real", "plateau" if has_plateau else None,
             "start0" if a[0] == 0 else "offset-start")
     if how in NARROW:
-        lim = float(np.iinfo(NARROW[how][0]).max)
-        ctx.cls("narrow-int", "difference-exceeds-dtype" if float(np.max(a) - np.min(a)) > lim else None,
+        lim = float(np.iinfo(NARROW[how][0]).max) / (2 if how.startswith("u") else 1)   # unsigned: a falling step wraps around
+        ctx.cls("narrow-int", "unsigned" if how.startswith("u") else None, "difference-exceeds-dtype" if float(np.max(a) - np.min(a)) > lim else None,
                 "rebased-exceeds-dtype" if float(np.max(np.abs(a - a[0]))) > lim else None)
     ctx.nt(len(peaks) >= 3 and (has_plateau or a[0] != 0))
-    snap = (list(x) if isinstance(x, list) else x.copy())
+    snap = (list(x) if isinstance(x, list) else np.array(x))
     d = np.asarray(ctx.lib(pk.determine_peaks_only_delta_series, x))
     c = np.asarray(ctx.lib(pk.determine_pseudo_cyclic_peak_only_series, x))
     same = (x == snap) if isinstance(x, list) else np.array_equal(x, snap)
@@ -182,18 +244,25 @@ def total_variation(case, ctx):
     csum = float(np.sum(c.astype(LD)))
     ctx.check(any(abs(csum - w_) <= tol for w_ in wants),
               "pseudo-cyclic series sums to %r, expected TV/2 + sign(final movement)*(end-start)/2 = %r" % (csum, want))
+    if not ctx.ambiguous:
+        # per-peak values (the statement applied to every prefix that ends at a reported peak, see _per_peak)
+        _per_peak(ctx, a, np.array(peaks), d, c, 0.0 if exact else 4 * EPS * float(np.max(np.abs(a))))
+        if not exact and case["offset"] != 0:
+            _real_shift(ctx, a, np.array(peaks), d, c, float(case["offset"]) * 1.1)
     # constant shift (exactly representable): identical output
     if exact and case["offset"] != 0:
         shift = case["offset"] if how != "int" else float(int(case["offset"] * 8))
         if how in NARROW:
-            shift = float(max(-2000, min(2000, int(case["offset"] * 8))))     # stays inside the dtype
+            shift = float(max(-NARROW[how][2], min(NARROW[how][2], int(case["offset"] * 8))))     # stays inside the dtype
+            if how.startswith("u"):
+                shift = abs(shift)
         x2 = _as(a + shift, how)
         ctx.equal(ctx.lib(pk.determine_peaks_only_delta_series, x2), d, "delta series after a constant shift of %r" % shift)
         ctx.equal(ctx.lib(pk.determine_pseudo_cyclic_peak_only_series, x2), c, "pseudo-cyclic series after a constant shift of %r" % shift)
         ctx.cls("shifted")
     if how == "int" and np.max(np.abs(a)) < 2 ** 40:
-        # raw counts on a large integer baseline (all values exactly representable in float64, |x| < 2^53): identical output
-        for big in (2 ** 50 + 7, -(2 ** 51) + 3):
+        # raw counts on a large integer baseline, also beyond 2^53: an integer series is rebased exactly, so the output is identical
+        for big in (2 ** 55 + 7, -(2 ** 58) + 3):
             x3 = np.array(a, dtype=np.int64) + np.int64(big)
             ctx.equal(ctx.lib(pk.determine_peaks_only_delta_series, x3), d, "delta series after an integer shift of %d" % big)
             ctx.equal(ctx.lib(pk.determine_pseudo_cyclic_peak_only_series, x3), c, "pseudo-cyclic series after an integer shift of %d" % big)
@@ -207,14 +276,16 @@ def _pl_cases(draw):
     c = draw(_series(max_n=1500))
     c["rec"].pop("as", None)
     c["b"] = draw(st.one_of(st.floats(0.05, 1.0, exclude_min=True, allow_nan=False), st.sampled_from([0.2, 0.34, 0.5, 1.0])))
-    c["barr"] = draw(st.lists(st.floats(0.1, 1.0, allow_nan=False), min_size=1, max_size=3))
+    c["barr"] = draw(st.lists(st.one_of(st.floats(0.05, 1.0, exclude_min=True, allow_nan=False), st.floats(0.05, 0.1, exclude_min=True, allow_nan=False)),
+                              min_size=1, max_size=3))
     c["cut"] = draw(st.one_of(st.just(0.0), st.just(0.01), st.floats(0.0, 0.1, allow_nan=False)))
     c["aref_rel"] = draw(gen.log_uniform(0.05, 20.0))
     c["ncyc"] = draw(gen.log_uniform(0.5, 50.0))
     c["alpha"] = draw(gen.scalars(1e-2, 1e2))
     c["unit"] = draw(st.sampled_from([0, 0, -20, -33, -50, 20, 40]))
     # raw counts of a 16 / 32 bit digitiser using the full range of the dtype, the most negative sample at the dtype's minimum
-    c["narrow"] = draw(st.sampled_from([None, None, None, None, "int16", "int16", "int32"]))
+    c["narrow"] = draw(st.sampled_from([None, None, None, None, None, "int16", "int16", "int32", "uint16", "uint8"]))
+    c["scont"] = draw(st.sampled_from(["ndarray", "list", "int"]))      # container of the scaled record alpha * x
     return c
 
 
@@ -230,112 +301,170 @@ def _ref_series(a, peaks, contrib):
         rule="series as above (n <= 1500, half of them starting at 0; 3 in 7 as int16 / int32 counts over the full range of the dtype with the "
              "most negative sample at the dtype's minimum), b in (0.05,1] scalar and arrays, cut_off in [0,0.1], a_ref within "
              "[0.05,20] x max|x|, n_cyc in [0.5,50], alpha in +-[1e-2,1e2]; non-trivial = >= 4 reference switched peaks",
-        oracle="reference model built from the reference switched peaks (C12): series == running sums (1e-10 rel), length, monotone; "
-               "inverse A(N(a_ref)) == a_ref (cut_off 0; >= with cut_off); A(alpha x) == |alpha| A(x); N(alpha x, alpha a_ref) == N(x, a_ref); "
-               "identical components: combined == 2^b single, geometric mean == single; array b column j == scalar call",
-        require={"nonzero-start": 0.2, "cut>0": 0.3, "first-value-is-peak": 0.06, "narrow-int": 0.2, "most-negative-count": 0.1}, min_nontrivial=0.3)
+        oracle="reference model built from the reference switched peaks (C12): series == running sums (1e-10 relative, element-wise, outside "
+               "the tied stretch of an excursion), length, monotone; inverse A(N(a_ref)) == a_ref * (S_all/S_kept)^b two-sided (== a_ref when no "
+               "peak is below the cut-off); A(alpha x) == |alpha| A(x) and N(alpha x, alpha a_ref) == N(x, a_ref) for scalar and array b, float64 / "
+               "list / int64 records, any unit with and without cut-off; identical components: combined == 2^b single, geometric mean == single "
+               "(4 eps); array b column j == reference == scalar call",
+        require={"nonzero-start": 0.2, "cut>0": 0.3, "first-value-is-peak": 0.06, "narrow-int": 0.2, "most-negative-count": 0.08,
+                 "small-unit-with-cut": 0.08, "inverse-with-dropped-peaks": 0.03}, min_nontrivial=0.3)
 def power_law(case, ctx):
     a, _ = _build(case)
     if ref.is_constant(a):
         a = a.copy()
         a[-1] += 1.0
     cut = case["cut"]
-    if cut > 0:
-        if float(np.max(np.abs(a))) < 1e-3:
-            # the library replaces below-cut-off peaks by the ABSOLUTE placeholder 1e-14: amplitudes must dwarf it (ASSUMPTIONS)
-            a = a * 2.0 ** int(np.ceil(-np.log2(float(np.max(np.abs(a))))))
+    # every law holds in any unit (strain, micro-tremor displacement in metres, raw counts), with and without a cut-off: exact
+    # power-of-two change of unit - as long as |peak|^(1/b) stays inside the double range (b = 0.05 raises amplitudes to the
+    # 20th power); otherwise the series is normalised to max|x| = 1
+    bmin = min([case["b"]] + list(case["barr"]))
+    scaled = a * 2.0 ** case.get("unit", 0)
+    top = float(np.max(np.abs(scaled)))
+    if top > 0 and abs(np.log10(top)) / bmin < 200:
+        if case.get("unit"):
+            ctx.cls("small-unit" if case["unit"] < 0 else "large-unit", "small-unit-with-cut" if case["unit"] < 0 and cut > 0 else None)
+        a = scaled
     else:
-        # cut_off = 0: nothing is replaced by the placeholder, so every law holds in any unit (strain, micro-tremor
-        # displacement in metres, raw counts): exact power-of-two change of unit - as long as |peak|^(1/b) stays inside the
-        # double range (b = 0.05 raises amplitudes to the 20th power); otherwise the series is normalised to max|x| = 1
-        bmin = min([case["b"]] + list(case["barr"]))
-        scaled = a * 2.0 ** case.get("unit", 0)
-        top = float(np.max(np.abs(scaled)))
-        if top > 0 and abs(np.log10(top)) / bmin < 200:
-            if case.get("unit"):
-                ctx.cls("small-unit" if case["unit"] < 0 else "large-unit")
-            a = scaled
-        else:
-            a = a * 2.0 ** int(np.ceil(-np.log2(float(np.max(np.abs(a))))))
-            ctx.cls("unit-normalised")
+        a = a * 2.0 ** int(np.ceil(-np.log2(float(np.max(np.abs(a))))))
+        ctx.cls("unit-normalised")
     x = a      # the argument handed to the library; `a` = the float64 values it represents
     if case.get("narrow"):
         xi, ai = gen.narrow_int(a, case["narrow"])
         if not ref.is_constant(ai):
             x, a = xi, ai
-            ctx.cls("narrow-int", "most-negative-count" if float(np.min(ai)) == float(np.iinfo(case["narrow"]).min) else None)
+            ctx.cls("narrow-int", "unsigned" if case["narrow"].startswith("u") else None,
+                    "most-negative-count" if float(np.min(ai)) == float(np.iinfo(case["narrow"]).min) and float(np.min(ai)) < 0 else None)
     n = len(a)
     b = case["b"]
     amax = float(np.max(np.abs(a)))
     aref = case["aref_rel"] * amax
     ncyc = case["ncyc"]
     peaks = ref.switched_peaks(a)
-    tie, _ = ref.switched_freedom(a)
+    _, tie, free = pf.switched(a, with_free=True)
+    fixed = ~free      # samples at which the cumulative series are determined (outside the tied stretch of an excursion)
     pv = np.abs(a[peaks]).astype(LD)
     ctx.cls("first-value-is-peak" if case.get("lead") else None)
     ctx.cls(gen.size_class(n), "nonzero-start" if a[0] != 0 else "zero-start", "cut>0" if cut > 0 else "cut=0", "tie" if tie else None,
             "below-cut" if cut > 0 and np.any((pv > 0) & (pv < cut * amax)) else None)
     ctx.nt(len([p for p in pv if p > 0]) >= 4)
-    # ---- equivalent number of cycles
+    rel = 1e-10 + 2 * EPS * len(peaks)
+    # a peak within 1e-9 of the cut-off: which side it falls on depends on how the product cut_off*max|x| is rounded
+    amb_cut = bool(cut > 0 and amax > 0 and np.any(np.abs(pv / LD(cut * amax) - 1) < 1e-9))
+
+    def series(contrib, power=None):
+        cum = _ref_series(a, peaks, contrib)
+        # sums below 1e-280 are (or were) subnormal in double precision: not compared (relative accuracy is lost there)
+        ok = fixed & ((cum >= 1e-280) | (cum == 0))
+        return (cum if power is None else cum ** LD(power)), ok
+
+    def cmp(got, want_ok, what, factor=1.0):
+        want, ok = want_ok
+        got = np.asarray(got)
+        if got.shape != want.shape:
+            ctx.fail("%s: shape %s, expected %s" % (what, got.shape, want.shape))
+        _cmp_series(ctx, got[ok], want[ok] * LD(factor), rel, 0.0, what)
+
+    # ---- equivalent number of cycles (peaks BELOW the cut-off count no cycles)
     keep = pv >= cut * amax
-    contrib_n = np.where(keep, LD(0.5) * (pv / LD(aref)) ** (LD(1) / LD(b)), LD(0))
-    nref = _ref_series(a, peaks, contrib_n)
-    slack_n = len(peaks) * 0.5 * (1e-14 / aref) ** (1.0 / b) if cut > 0 else 0.0
+
+    def n_ref(bj, aref_=aref):
+        return series(np.where(keep, LD(0.5) * (pv / LD(aref_)) ** (LD(1) / LD(bj)), LD(0)))
+
+    def a_ref_series(bj, ncyc_=ncyc):
+        return series(LD(0.5) * pv ** (LD(1) / LD(bj)) / LD(ncyc_), power=bj)
+
     ns = np.asarray(ctx.lib(im.calc_n_cyc_array_w_power_law, x, aref, b, cut_off=cut))
-    ctx.check(ns.shape[0] == n, "cycle series has length %s, record %d" % (ns.shape, n))
+    ctx.check(ns.shape[0] == n and ns.size == n, "cycle series has shape %s, record %d" % (ns.shape, n))
     ns1 = ns.reshape(n, -1)[:, 0]
     ctx.finite(ns1, "cycle series")
     ctx.check(bool(np.all(np.diff(ns1) >= 0)), "equivalent number of cycles is not non-decreasing")
-    tol_n = 1e-10 * float(nref[-1]) + slack_n + core.TINY
-    if tie:
-        ctx.check(abs(float(ns1[-1]) - float(nref[-1])) <= tol_n, "final number of cycles %r, reference %r" % (float(ns1[-1]), float(nref[-1])))
-    else:
-        ctx.close(ns1, nref, tol_n, "equivalent number of cycles vs reference (b=%r, cut_off=%r, a_ref=%r)" % (b, cut, aref))
-    # ---- equivalent uniform amplitude
-    contrib_a = LD(0.5) * pv ** (LD(1) / LD(b)) / LD(ncyc)
-    aref_series = _ref_series(a, peaks, contrib_a) ** LD(b)
-    As = np.asarray(ctx.lib(im.calc_cyc_amp_array_w_power_law, x, ncyc, b))
-    ctx.shape(As, (n,), "equivalent amplitude series (scalar b)")
-    ctx.check(bool(np.all(np.diff(As) >= 0)), "equivalent uniform amplitude is not non-decreasing")
-    tol_a = 1e-10 * float(aref_series[-1]) + core.TINY
-    if tie:
-        ctx.check(abs(float(As[-1]) - float(aref_series[-1])) <= tol_a, "final equivalent amplitude %r, reference %r" % (float(As[-1]), float(aref_series[-1])))
-    else:
-        ctx.close(As, aref_series, tol_a, "equivalent amplitude vs reference (b=%r, n_cyc=%r)" % (b, ncyc))
-    # ---- mutually inverse
-    n_end = float(ns1[-1])
-    if n_end > 0:
-        back = float(np.asarray(ctx.lib(im.calc_cyc_amp_array_w_power_law, x, n_end, b))[-1])
-        if cut == 0:
-            ctx.check(abs(back - aref) <= 1e-9 * aref, "A(N(a_ref)) = %r but a_ref = %r (b=%r)" % (back, aref, b))
-        else:
-            ctx.check(back >= aref * (1 - 1e-9), "A(N(a_ref)) = %r < a_ref = %r with cut_off=%r" % (back, aref, cut))
-    # ---- scaling laws
-    al = case["alpha"]
-    A2 = np.asarray(ctx.lib(im.calc_cyc_amp_array_w_power_law, a * al, ncyc, b))
-    ctx.close(A2, abs(al) * As, 1e-10 * abs(al) * float(As[-1]) + core.TINY, "A(alpha x) vs |alpha| A(x)")
-    N2 = np.asarray(ctx.lib(im.calc_n_cyc_array_w_power_law, a * al, aref * abs(al), b, cut_off=cut)).reshape(n, -1)[:, 0]
-    amb_cut = cut > 0 and np.any(np.abs(pv / (cut * amax) - 1) < 1e-9) if amax > 0 and cut > 0 else False
     if amb_cut:
         ctx.amb()
     else:
-        ctx.close(N2, ns1, 1e-10 * float(ns1[-1]) + 2 * slack_n * max(1.0, abs(al) ** (-1.0 / b)) + core.TINY, "N(alpha x, alpha a_ref) vs N(x, a_ref)")
-    # ---- two identical components
-    comb = np.asarray(ctx.lib(im.calc_cyc_amp_combined_arrays_w_power_law, x, x.copy(), ncyc, b))
-    gm = np.asarray(ctx.lib(im.calc_cyc_amp_gm_arrays_w_power_law, x, x.copy(), ncyc, b))
-    ctx.close(comb, 2.0 ** b * As, 1e-10 * 2.0 ** b * float(As[-1]) + core.TINY, "combined amplitude of two identical components vs 2^b * single")
-    ctx.close(gm, As, 1e-10 * float(As[-1]) + core.TINY, "geometric-mean amplitude of two identical components vs single")
-    # ---- array b
+        cmp(ns1, n_ref(b), "equivalent number of cycles vs reference (b=%r, cut_off=%r, a_ref=%r)" % (b, cut, aref))
+    # ---- equivalent uniform amplitude
+    As = np.asarray(ctx.lib(im.calc_cyc_amp_array_w_power_law, x, ncyc, b))
+    ctx.shape(As, (n,), "equivalent amplitude series (scalar b)")
+    ctx.check(bool(np.all(np.diff(As) >= 0)), "equivalent uniform amplitude is not non-decreasing")
+    cmp(As, a_ref_series(b), "equivalent amplitude vs reference (b=%r, n_cyc=%r)" % (b, ncyc))
+    # ---- mutually inverse.  N counts the kept peaks only, A all of them: A(N(a_ref)) = a_ref * (S_all / S_kept)^b with
+    # S = sum |p|^(1/b); that is a_ref itself when no peak lies below the cut-off (always for cut_off = 0) - two-sided either way
+    n_end = float(ns1[-1])
+    if n_end > 1e-280 and not amb_cut:
+        back = float(np.asarray(ctx.lib(im.calc_cyc_amp_array_w_power_law, x, n_end, b))[-1])
+        pw = pv ** (LD(1) / LD(b))
+        s_all, s_kept = np.sum(pw), np.sum(np.where(keep, pw, LD(0)))
+        if s_kept >= 1e-280 and s_all < 1e300:
+            want = float(LD(aref) * (s_all / s_kept) ** LD(b))
+            ctx.cls("inverse-exact" if s_all == s_kept else "inverse-with-dropped-peaks")
+            ctx.check(abs(back - want) <= 1e-9 * want, "A(N(a_ref)) = %r but a_ref = %r, expected %r (b=%r, cut_off=%r)" % (back, aref, want, b, cut))
+    # ---- scaling laws: scalar and array b; float64 / list containers (integer containers below)
+    al = case["alpha"]
     barr = np.array(case["barr"], dtype=float)
+    a2 = a * al
+    sw2, _t2, free2 = pf.switched(a2, with_free=True)
+    amax2 = float(np.max(np.abs(a2)))
+    same_peaks = np.array_equal(sw2, np.array(peaks)) and np.array_equal(free2, free) and \
+        bool(np.all((np.abs(a2[sw2]) >= cut * amax2) == np.asarray(keep)))
+    x2 = [float(v) for v in a2] if case.get("scont") == "list" else a2
     Aarr = np.asarray(ctx.lib(im.calc_cyc_amp_array_w_power_law, x, ncyc, barr))
     Narr = np.asarray(ctx.lib(im.calc_n_cyc_array_w_power_law, x, aref, barr, cut_off=cut))
     ctx.shape(Aarr, (n, len(barr)), "amplitude series for array b")
     ctx.shape(Narr, (n, len(barr)), "cycle series for array b")
+    if not same_peaks:
+        # alpha*x rounds two samples onto each other (or across the cut-off): the reported peaks move - nothing to compare
+        ctx.cls("scaling-moves-a-peak")
+    else:
+        okA = a_ref_series(b)[1]
+        okN = n_ref(b)[1]
+        A2 = np.asarray(ctx.lib(im.calc_cyc_amp_array_w_power_law, x2, ncyc, b))
+        ctx.close(A2[okA], abs(al) * As[okA], 2 * rel * abs(al) * np.abs(As[okA]) + core.TINY, "A(alpha x) vs |alpha| A(x)")
+        N2 = np.asarray(ctx.lib(im.calc_n_cyc_array_w_power_law, x2, aref * abs(al), b, cut_off=cut)).reshape(n, -1)[:, 0]
+        if amb_cut:
+            ctx.amb()
+        else:
+            ctx.close(N2[okN], ns1[okN], 2 * rel * np.abs(ns1[okN]) + core.TINY, "N(alpha x, alpha a_ref) vs N(x, a_ref)")
+        A2a = np.asarray(ctx.lib(im.calc_cyc_amp_array_w_power_law, x2, ncyc, barr))
+        N2a = np.asarray(ctx.lib(im.calc_n_cyc_array_w_power_law, x2, aref * abs(al), barr, cut_off=cut))
+        for j, bj in enumerate(barr):
+            oka = a_ref_series(float(bj))[1]
+            okn = n_ref(float(bj))[1]
+            ctx.close(A2a[oka, j], abs(al) * Aarr[oka, j], 2 * rel * abs(al) * np.abs(Aarr[oka, j]) + core.TINY, "A(alpha x) vs |alpha| A(x), array b column %d" % j)
+            if not amb_cut:
+                ctx.close(N2a[okn, j], Narr[okn, j], 2 * rel * np.abs(Narr[okn, j]) + core.TINY, "N(alpha x, alpha a_ref) vs N(x, a_ref), array b column %d" % j)
+    if case.get("scont") == "int" and not case.get("narrow"):
+        # integer counts and an integer factor: alpha * x is exact
+        k = 30 - int(math.ceil(math.log2(amax)))
+        xi = np.round(a * 2.0 ** k).astype(np.int64)
+        ka = [2, -3, 5, -7][int(abs(case["alpha"]) * 1000) % 4]
+        if not ref.is_constant(xi.astype(float)):
+            ai_max = float(np.max(np.abs(xi)))
+            Ai = np.asarray(ctx.lib(im.calc_cyc_amp_array_w_power_law, xi, ncyc, b))
+            Ai2 = np.asarray(ctx.lib(im.calc_cyc_amp_array_w_power_law, xi * ka, ncyc, b))
+            ctx.close(Ai2, abs(ka) * Ai, 2 * rel * abs(ka) * np.abs(Ai) + 1e-280, "A(k x) vs |k| A(x), int64 counts, k=%d" % ka)
+            Ni = np.asarray(ctx.lib(im.calc_n_cyc_array_w_power_law, xi, case["aref_rel"] * ai_max, b, cut_off=cut)).reshape(n, -1)[:, 0]
+            Ni2 = np.asarray(ctx.lib(im.calc_n_cyc_array_w_power_law, xi * ka, case["aref_rel"] * ai_max * abs(ka), b, cut_off=cut)).reshape(n, -1)[:, 0]
+            pvi = np.abs(xi[pf.switched_peaks(xi.astype(float))]).astype(float)
+            if cut > 0 and np.any(np.abs(pvi / (cut * ai_max) - 1) < 1e-9):
+                ctx.amb()
+            else:
+                ctx.close(Ni2, Ni, 2 * rel * np.abs(Ni) + 1e-280, "N(k x, k a_ref) vs N(x, a_ref), int64 counts, k=%d" % ka)
+            ctx.cls("scaling-int")
+    # ---- two identical components
+    comb = np.asarray(ctx.lib(im.calc_cyc_amp_combined_arrays_w_power_law, x, x.copy(), ncyc, b))
+    gm = np.asarray(ctx.lib(im.calc_cyc_amp_gm_arrays_w_power_law, x, x.copy(), ncyc, b))
+    cmp(comb, a_ref_series(b), "combined amplitude of two identical components vs 2^b * single", factor=2.0 ** b)
+    cmp(gm, a_ref_series(b), "geometric-mean amplitude of two identical components vs single")
+    ctx.close(gm, As, 4 * EPS * np.abs(As) + core.TINY, "geometric-mean amplitude of two identical components vs the single-component call")
+    # ---- array b: reference and scalar call
     for j, bj in enumerate(barr):
+        cmp(Aarr[:, j], a_ref_series(float(bj)), "amplitude series for array b, column %d (b=%r)" % (j, float(bj)))
+        if not amb_cut:
+            cmp(Narr[:, j], n_ref(float(bj)), "cycle series for array b, column %d (b=%r)" % (j, float(bj)))
         Aj = np.asarray(ctx.lib(im.calc_cyc_amp_array_w_power_law, x, ncyc, float(bj)))
         Nj = np.asarray(ctx.lib(im.calc_n_cyc_array_w_power_law, x, aref, float(bj), cut_off=cut)).reshape(n, -1)[:, 0]
-        ctx.close(Aarr[:, j], Aj, 1e-12 * float(Aj[-1]) + core.TINY, "array-b column %d vs scalar call (amplitude)" % j)
-        ctx.close(Narr[:, j], Nj, 1e-12 * float(Nj[-1]) + core.TINY, "array-b column %d vs scalar call (cycles)" % j)
+        ctx.close(Aarr[:, j], Aj, 1e-12 * np.abs(Aj) + core.TINY, "array-b column %d vs scalar call (amplitude)" % j)
+        ctx.close(Narr[:, j], Nj, 1e-12 * np.abs(Nj) + core.TINY, "array-b column %d vs scalar call (cycles)" % j)
 
 
 # ---------------------------------------------------------------------------
@@ -369,9 +498,10 @@ def _sd(*parts):
     return int(_hu("seed", *parts) * (2 ** 31 - 1))
 
 
-B_SCALARS = [0.07, 0.1, 0.2, 0.3, 0.34, 0.5, 0.8, 1.0]
+B_SCALARS = [0.051, 0.07, 0.1, 0.2, 0.3, 0.34, 0.5, 0.8, 1.0]
 CUTS = [None, 0.0, 0.01, 0.03, 0.1]       # None: the argument is omitted (default 0.01)
 UNITS = [0, 0, -7, 5]
+UNITS_WIDE = [0, -7, 5, -20, -33, 12, 30]       # with b >= 0.15 (powers up to 6.7): strain / micro-tremor units and raw counts
 
 
 def _mr_series(c):
@@ -495,7 +625,7 @@ def _pl_setup(ctx, c):
     a0 = _mr_series(c)
     x, a = _mr_container(a0, c.get("container", "ndarray"))
     n = len(a)
-    sw, tie = pf.switched(a)
+    sw, tie, free = pf.switched(a, with_free=True)
     pv = np.abs(a[sw])
     amax = float(np.max(np.abs(a)))
     aref = float(c["aref_rel"]) * amax
@@ -510,7 +640,7 @@ def _pl_setup(ctx, c):
     keep = pv >= cutv * amax
     if cutv > 0 and np.any((pv > 0) & ~keep):
         ctx.cls("below-cut")
-    return dict(x=x, a=a, n=n, sw=sw, tie=tie, pv=pv, amax=amax, aref=aref, ncyc=ncyc, cut=cut, cutv=cutv, keep=keep,
+    return dict(x=x, a=a, n=n, sw=sw, tie=tie, fixed=~free, pv=pv, amax=amax, aref=aref, ncyc=ncyc, cut=cut, cutv=cutv, keep=keep,
                 amb_cut=amb_cut, kidx=_step_index(n, sw), rel=_rel_tol(len(sw)))
 
 
@@ -532,11 +662,6 @@ def _ref_a_ld(s, bj, ncyc=None):
     return (np.concatenate([[LD(0)], np.cumsum(contrib)]) ** LD(bj))[s["kidx"]]
 
 
-def _slack_n(s, bj):
-    # the library counts a below-cut-off peak as 0.5*(1e-14/a_ref)^(1/b) cycles instead of 0 (ASSUMPTIONS)
-    return len(s["sw"]) * 0.5 * (1e-14 / s["aref"]) ** (1.0 / float(bj)) if s["cutv"] > 0 else 0.0
-
-
 def _check_n_col(ctx, s, col, bj, what):
     n = s["n"]
     ctx.check(col.shape == (n,), "%s: cycle series has shape %s, record %d" % (what, col.shape, n))
@@ -545,10 +670,10 @@ def _check_n_col(ctx, s, col, bj, what):
     want = _ref_n_ld(s, bj)
     if s["amb_cut"]:
         ctx.amb()
-    elif s["tie"]:
-        _cmp_series(ctx, col[-1:], want[-1:], s["rel"], _slack_n(s, bj), what + " (end of record)")
     else:
-        _cmp_series(ctx, col, want, s["rel"], _slack_n(s, bj), what + " vs reference (b=%r, cut_off=%r, a_ref=%r)" % (
+        # an excursion that attains its largest |value| more than once leaves the series open between those samples only
+        ok = s["fixed"]
+        _cmp_series(ctx, col[ok], want[ok], s["rel"], 0.0, what + " vs reference (b=%r, cut_off=%r, a_ref=%r)" % (
             float(bj), s["cut"], s["aref"]))
 
 
@@ -558,10 +683,8 @@ def _check_a_col(ctx, s, col, bj, what, factor=1.0, ncyc=None):
     ctx.finite(col, what)
     ctx.check(bool(np.all(np.diff(col) >= 0)), "%s: equivalent uniform amplitude is not non-decreasing" % what)
     want = _ref_a_ld(s, bj, ncyc) * LD(factor)
-    if s["tie"]:
-        _cmp_series(ctx, col[-1:], want[-1:], s["rel"], 0.0, what + " (end of record)")
-    else:
-        _cmp_series(ctx, col, want, s["rel"], 0.0, what + " vs reference (b=%r)" % float(bj))
+    ok = s["fixed"]
+    _cmp_series(ctx, col[ok], want[ok], s["rel"], 0.0, what + " vs reference (b=%r)" % float(bj))
 
 
 def _b_arg(c):
@@ -577,15 +700,15 @@ def _b_arg(c):
     rs = np.random.RandomState(int(spec["seed"]))
     fill = spec["fill"]
     if fill == "linspace":
-        lo, hi = sorted(rs.uniform(0.08, 1.0, 2))
+        lo, hi = sorted(rs.uniform(0.0501, 1.0, 2))
         v = np.linspace(lo, max(hi, lo + 0.05), m)
     elif fill == "random":
-        v = rs.uniform(0.08, 1.0, m)
+        v = rs.uniform(0.0501, 1.0, m)
     elif fill == "repeat":
         # a flattened parameter grid: few distinct values, each many times, unsorted
-        v = rs.choice(rs.uniform(0.08, 1.0, max(1, min(7, m // 2))), size=m)
+        v = rs.choice(rs.uniform(0.0501, 1.0, max(1, min(7, m // 2))), size=m)
     elif fill == "const":
-        v = np.full(m, float(rs.uniform(0.08, 1.0)))
+        v = np.full(m, float(rs.uniform(0.0501, 1.0)))
     elif fill == "ones-int":
         return np.ones(m, dtype=np.int64), [1.0] * m, True
     else:
@@ -639,13 +762,16 @@ def _mid_cases(tier):
                       aref_rel=round(_logu(0.05, 20.0, "plr", i, kind), 6), ncyc=round(_logu(0.5, 50.0, "pln", i, kind), 6),
                       container=_pick(["ndarray", "ndarray", "ndarray", "int", "readonly", "int32", "list"], "plc", i, kind))
             if _hu("plb", i, kind) < 0.6:
-                b = _pick(B_SCALARS, "plbs", i, kind) if _hu("plb2", i, kind) < 0.5 else round(0.06 + 0.94 * _hu("plb3", i, kind), 4)
+                b = _pick(B_SCALARS, "plbs", i, kind) if _hu("plb2", i, kind) < 0.5 else round(0.0501 + 0.9499 * _hu("plb3", i, kind), 4)
             else:
                 b = {"form": "array", "m": 1 + int(3 * _hu("plbm", i, kind)), "fill": _pick(["random", "repeat", "linspace"], "plbf", i, kind),
                      "seed": _sd("plb", i, kind), "layout": "c"}
-            cases.append(dict(pl, group="single", b=b, cut=_pick(CUTS, "plcut", i, kind), cost=3 * per_sample * n))
-            bs = _pick(B_SCALARS, "plbp", i, kind) if _hu("plbp2", i, kind) < 0.5 else round(0.06 + 0.94 * _hu("plbp3", i, kind), 4)
+            wide = {"unit": _pick(UNITS_WIDE, "pluw", i, kind)} if not isinstance(b, dict) and b >= 0.15 else {}
+            cases.append(dict(pl, group="single", b=b, cut=_pick(CUTS, "plcut", i, kind), cost=3 * per_sample * n, **wide))
+            bs = _pick(B_SCALARS, "plbp", i, kind) if _hu("plbp2", i, kind) < 0.5 else round(0.0501 + 0.9499 * _hu("plbp3", i, kind), 4)
             pair = dict(pl, b=bs, seed=_sd("mid-pair", i, kind), start=_pick(["zero", "offset", "lead"], "pps", i, kind))
+            if bs >= 0.15:
+                pair["unit"] = _pick(UNITS_WIDE, "ppuw", i, kind)
             if kind != "smooth" and n > 20000:
                 # the library walks over every local peak in Python (~2 micro-seconds each, four walks for the two functions):
                 # long wiggly records get one of the two functions, alternately
@@ -725,36 +851,17 @@ def _tv_check(ctx, c):
         if len(nzaway):
             ctx.fail("%s series is non-zero away from reported peaks: e.g. index %d (%d such samples)" % (
                 name, int(np.flatnonzero(away)[nzaway[0]]), len(nzaway)))
-    # whole output = the statement applied to every prefix that ends at a reported peak: |delta| at a reported peak is the
-    # variation since the previous one, its sign (relative to the movement) is the same for the whole record
-    dp = dl[lp[1:]]
-    e_pos = np.abs(dp - moves)
-    e_neg = np.abs(dp + moves)
-    if not (np.all(e_pos <= tol_el) or np.all(e_neg <= tol_el)):
-        w_ = e_pos if np.sum(e_pos <= tol_el) >= np.sum(e_neg <= tol_el) else e_neg
-        j = int(np.flatnonzero(~(w_ <= tol_el))[0])
-        ctx.fail("delta series at reported peak %d (index %d of %d): %r, but the series moved by %r since the previous reported peak (index %d); %d of %d peaks differ" % (
-            j + 1, int(lp[j + 1]), n, float(dp[j]), float(moves[j]), int(lp[j]), int(np.sum(~(w_ <= tol_el))), len(dp)))
-    ctx.check(abs(float(dl[lp[0]])) <= tol_el, "delta series at the first sample is %r" % float(dl[lp[0]]))
+    _per_peak(ctx, a, lp, d, cs, tol_el)
     sabs = np.sum(np.abs(dl))
     ctx.check(abs(float(sabs - tv)) <= tol_sum, "sum|delta| = %r but the total variation is %r" % (float(sabs), float(tv)))
     ctx.check(abs(abs(float(np.sum(dl))) - abs(float(off))) <= tol_sum, "|sum delta| = %r but |x[-1]-x[0]| = %r" % (abs(float(np.sum(dl))), abs(float(off))))
-    # pseudo-cyclic: the prefix law (sum up to a reported peak = TV/2 + sign(movement into it)*(x - x[0])/2) gives the entry at
-    # reported peak j as sign(movement into it) * (x[peak] - x[0])
-    want_c = np.sign(moves) * (pvals[1:] - al[0])
-    e_c = np.abs(cl_[lp[1:]] - want_c)
-    if not np.all(e_c <= tol_el):
-        j = int(np.flatnonzero(~(e_c <= tol_el))[0])
-        ctx.fail("pseudo-cyclic series at reported peak %d (index %d of %d): %r, expected sign(movement)*(x - x[0]) = %r; %d of %d peaks differ" % (
-            j + 1, int(lp[j + 1]), n, float(cl_[lp[j + 1]]), float(want_c[j]), int(np.sum(~(e_c <= tol_el))), len(e_c)))
-    ctx.check(abs(float(cl_[lp[0]])) <= tol_el, "pseudo-cyclic series at the first sample is %r" % float(cl_[lp[0]]))
     want_sum = tv / 2 + last_dir * off / 2
     ctx.check(abs(float(np.sum(cl_) - want_sum)) <= tol_sum,
               "pseudo-cyclic series sums to %r, expected TV/2 + sign(final movement)*(end-start)/2 = %r" % (float(np.sum(cl_)), float(want_sum)))
     if exact:
         if how == "int":
-            x2 = x + np.int64(2 ** 50 + 7)     # all values stay exactly representable in float64
-            what = "an integer shift of 2^50+7"
+            x2 = x + np.int64(2 ** 55 + 7)     # beyond 2^53: an integer series is rebased exactly
+            what = "an integer shift of 2^55+7"
         elif how in NARROW:
             x2 = x + NARROW[how][0](2000)
             what = "an integer shift of 2000 (%s)" % how
@@ -765,6 +872,8 @@ def _tv_check(ctx, c):
         ctx.equal(ctx.lib(pk.determine_peaks_only_delta_series, x2), d, "delta series after " + what)
         ctx.equal(ctx.lib(pk.determine_pseudo_cyclic_peak_only_series, x2), cs, "pseudo-cyclic series after " + what)
         ctx.cls("shifted")
+    elif how == "ndarray":
+        _real_shift(ctx, a, lp, d, cs, float(_pick([1024.0, -2.5, 1.0, -0.375], "rshift", c["seed"])) * 1.1)
 
 
 def _single_check(ctx, c):
@@ -786,11 +895,36 @@ def _single_check(ctx, c):
     n_end = float(ns[-1, j])
     if n_end > 0 and np.isfinite(n_end):
         back = float(np.asarray(ctx.lib(im.calc_cyc_amp_array_w_power_law, s["x"], n_end, b)).reshape(n, -1)[-1, j])
-        tol = max(1e-9, 4 * s["rel"]) * s["aref"]
-        if s["cutv"] == 0:
-            ctx.check(abs(back - s["aref"]) <= tol, "A(N(a_ref)) = %r but a_ref = %r (b=%r)" % (back, s["aref"], bvals[j]))
-        else:
-            ctx.check(back >= s["aref"] - tol, "A(N(a_ref)) = %r < a_ref = %r with cut_off=%r" % (back, s["aref"], s["cutv"]))
+        _inverse_check(ctx, s, back, bvals[j])
+    # scaling laws at mid sizes (two more walks over the peaks: records up to 40000 samples and all smooth ones)
+    if (n <= 40000 or c["kind"] == "smooth") and not isinstance(s["x"], list) and s["x"].dtype == float:
+        al = float(_pick([-1.0, 1.0], "als", c["seed"])) * _logu(1e-2, 1e2, "al", c["seed"])
+        a2 = s["a"] * al
+        sw2, _t, free2 = pf.switched(a2, with_free=True)
+        if np.array_equal(sw2, s["sw"]) and np.array_equal(~free2, s["fixed"]) and not s["amb_cut"] and \
+                bool(np.all((np.abs(a2[sw2]) >= s["cutv"] * float(np.max(np.abs(a2)))) == s["keep"])):
+            ok = s["fixed"]
+            A2 = np.asarray(ctx.lib(im.calc_cyc_amp_array_w_power_law, a2, s["ncyc"], b)).reshape(n, -1)
+            ctx.close(A2[ok], abs(al) * As[ok], 2 * s["rel"] * abs(al) * np.abs(As[ok]) + core.TINY, "A(alpha x) vs |alpha| A(x), alpha=%r" % al)
+            s2 = dict(s, x=a2, aref=s["aref"] * abs(al))
+            N2 = _ncyc_call(ctx, s2, b).reshape(n, -1)
+            ctx.close(N2[ok], ns[ok], 2 * s["rel"] * np.abs(ns[ok]) + core.TINY, "N(alpha x, alpha a_ref) vs N(x, a_ref), alpha=%r" % al)
+            ctx.cls("scaling")
+
+
+def _inverse_check(ctx, s, back, bj):
+    """A(N(a_ref))[-1] two-sided: N counts the kept peaks, A all of them -> a_ref * (S_all / S_kept)^b with S = sum |p|^(1/b);
+    a_ref itself when no peak lies below the cut-off."""
+    if s["amb_cut"]:
+        return
+    pw = s["pv"].astype(LD) ** (LD(1) / LD(bj))
+    s_all, s_kept = np.sum(pw), np.sum(np.where(s["keep"], pw, LD(0)))
+    if not (s_kept > 0):
+        return
+    want = float(LD(s["aref"]) * (s_all / s_kept) ** LD(bj))
+    ctx.cls("inverse-exact" if s_all == s_kept else "inverse-with-dropped-peaks")
+    ctx.check(abs(back - want) <= max(1e-9, 4 * s["rel"]) * want,
+              "A(N(a_ref)) = %r but a_ref = %r, expected %r (b=%r, cut_off=%r)" % (back, s["aref"], want, bj, s["cutv"]))
 
 
 def _pair_check(ctx, c, which):
@@ -930,25 +1064,20 @@ def _matrix_check(ctx, s, out, bvals, mode, what, ncyc=None):
         if mode == "N":
             contrib = 0.5 * (pv / s["aref"])[:, None] ** e[None, :]
             contrib[~s["keep"], :] = 0.0
-            slack = np.array([_slack_n(s, q) for q in bv[j0:j1]])
         else:
             contrib = 0.5 * pv[:, None] ** e[None, :] / ncyc
-            slack = np.zeros(j1 - j0)
         cum = np.concatenate([np.zeros((1, j1 - j0), dtype=LD), np.cumsum(contrib.astype(LD), axis=0)], axis=0)
         step = cum.astype(float)
         if mode != "N":
             step = step ** bv[j0:j1][None, :]
         del contrib, cum
-        if s["tie"]:
-            rows = [(n - 1, n)]
-        else:
-            rows = [(i0, min(n, i0 + rowblk)) for i0 in range(0, n, rowblk)]
+        rows = [(i0, min(n, i0 + rowblk)) for i0 in range(0, n, rowblk)]
         for (i0, i1) in rows:
             got = out[i0:i1, j0:j1]
             if not np.all(np.isfinite(got)):
                 ctx.fail("%s: non-finite values in rows %d..%d" % (what, i0, i1))
             want = step[kidx[i0:i1]]
-            bad = ~(np.abs(got - want) <= rel * want + slack[None, :] + core.TINY)
+            bad = ~(np.abs(got - want) <= rel * want + core.TINY) & s["fixed"][i0:i1, None]
             if np.any(bad):
                 r, q = [int(v) for v in np.argwhere(bad)[0]]
                 ctx.fail("%s: row %d of %d, column %d of %d (b=%r): got %r, reference %r (tol %.3g relative; %d entries of this block out)" % (
@@ -999,13 +1128,12 @@ def _prod_check(ctx, c):
         one = np.asarray(ctx.lib(im.calc_cyc_amp_array_w_power_law, s["x"], s["ncyc"], float(bvals[j])))
     ctx.close(out[:, j], one, 1e-12 * np.abs(one) + core.TINY, "array-b column %d vs scalar call (%s)" % (j, name))
     # mutually inverse at the end of the record, two columns (small products only: every call is O(n x m))
-    if mode == "N" and n * m <= 2e6 and s["cutv"] == 0 and not s["amb_cut"]:
+    if mode == "N" and n * m <= 2e6 and not s["amb_cut"]:
         for j in (cols[0], cols[-1]):
             n_end = float(out[-1, j])
             if n_end > 0 and np.isfinite(n_end):
                 back = float(np.asarray(ctx.lib(im.calc_cyc_amp_array_w_power_law, s["x"], n_end, b))[-1, j])
-                ctx.check(abs(back - s["aref"]) <= max(1e-9, 4 * s["rel"]) * s["aref"],
-                          "A(N(a_ref)) = %r but a_ref = %r (column %d, b=%r)" % (back, s["aref"], j, bvals[j]))
+                _inverse_check(ctx, s, back, bvals[j])
         ctx.cls("inverse")
 
 
@@ -1049,7 +1177,7 @@ def _opt_cases(tier):
                         kind = _pick(["band", "band", "smooth", "noise"], "ok", i)
                         seed = _sd("opt", i)
                         if bform == "float":
-                            b = round(0.06 + 0.94 * _hu("ob", i), 4)
+                            b = round(0.0501 + 0.9499 * _hu("ob", i), 4)
                         elif bform == "npfloat":
                             b = {"form": "npfloat", "v": _pick(B_SCALARS, "ob", i)}
                         elif bform == "int1":
@@ -1062,8 +1190,9 @@ def _opt_cases(tier):
                             b = {"form": "array", "m": 2 + int(5 * _hu("obm", i)), "fill": "random", "seed": seed, "layout": "strided"}
                         else:
                             b = {"form": "array", "m": 1 + int(3 * _hu("obm", i)), "fill": "ones-int", "seed": seed}
+                        bmin = b if not isinstance(b, dict) else (b.get("v", 1.0) if b["form"] in ("npfloat", "int1") else 0.05)
                         cases.append(dict(n=n, seed=seed, start=start, container=cont, cut=cut, b=b, bform=bform,
-                                          unit=_pick(UNITS, "ou", i), aref_rel=round(_logu(0.05, 20.0, "or", i), 6),
+                                          unit=_pick(UNITS_WIDE if bmin >= 0.15 else UNITS, "ou", i), aref_rel=round(_logu(0.05, 20.0, "or", i), 6),
                                           ncyc=round(_logu(0.5, 50.0, "onc", i), 6), cost=n, **_kind_params(kind, n, "opt", i)))
     return cases
 
@@ -1120,7 +1249,7 @@ def _tie_cases(draw):
         c["top"] = top
         c["p"] = draw(st.one_of(st.just(pmax), st.integers(1, pmax)))
         c["cut"] = c["p"] / float(top)          # exact in binary, <= 0.1
-        c["j"] = draw(st.integers(-6, 6))       # unit 2^j (exact)
+        c["j"] = draw(st.one_of(st.integers(-6, 6), st.integers(-40, -7)))       # unit 2^j (exact)
     amps = draw(st.lists(st.one_of(st.integers(1, c["top"]), st.integers(1, max(1, 2 * c["p"]))), min_size=3, max_size=14))
     # make sure the largest amplitude and (at least once) the amplitude AT the cut-off are present
     amps[draw(st.integers(0, len(amps) - 1))] = c["top"]
@@ -1159,9 +1288,9 @@ def _tie_record(c):
         rule="records of 3..14 half cycles (one sample / triangle / ramp per half cycle) with integer amplitudes x 2^j, the largest one a power "
              "of two 16..128 (or 10, 20, 50 in the decimal variant), at least one half cycle whose amplitude equals cut_off * max|x| bit for bit "
              "(cut_off = p / 2^k <= 0.1, exact; decimal variant: cut_off = 0.1), others just above and below it; b in [0.25, 1] scalar and "
-             "one-element array; non-trivial = the peaks AT the cut-off contribute more than 1e-6 of the final number of cycles",
+             "one-element array; units 2^-40 .. 2^6; non-trivial = the peaks AT the cut-off contribute more than 1e-6 of the final number of cycles",
         oracle="reference model: N = running sum over the reference switched peaks with |p| >= cut_off * max|x| (a peak AT the cut-off is not "
-               "below it), whole series, 1e-10 relative + the 1e-14 placeholder slack; the decimal variant (product not exact) is ambiguous and "
+               "below it), whole series, 1e-10 relative; the decimal variant (product not exact) is ambiguous and "
                "bracket-checked (either reading)",
         require={"exact-tie": 0.5, "peaks-below-cut": 0.3}, min_nontrivial=0.4)
 def cutoff_tie(case, ctx):
@@ -1193,8 +1322,7 @@ def cutoff_tie(case, ctx):
     ctx.check(ns.shape[0] == n, "cycle series has length %s, record %d" % (ns.shape, n))
     ns1 = ns.reshape(n, -1)[:, 0]
     ctx.finite(ns1, "cycle series")
-    slack = len(peaks) * 0.5 * (1e-14 / aref) ** (1.0 / b)
-    tol = 1e-10 * float(n_incl[-1]) + slack + core.TINY
+    tol = 1e-10 * float(n_incl[-1]) + core.TINY
     if exact:
         ctx.close(ns1, n_incl, tol, "equivalent number of cycles with peak(s) exactly AT cut_off*max|x| = %r (cut_off=%r, b=%r): a peak at "
                                     "the cut-off is not below it" % (thr, cut, b))
